@@ -13,11 +13,35 @@ BOUND = ("networks with <= 6 variables (exhaustive 1-variable, sampled 2-variabl
          "both strategies; max_drivers_per_succession_node in {None,0,1,2,3}; seeded forbidden sets of 0-2 variables; successful_only on/off; "
          "successions compared as multisets with the paths of the reference target-directed expansion, drivers with brute-force enumeration of all "
          "variable subsets of the pool")
+BOUND += ("; the shared-child shape: a node that is a child of the root and of a sibling (96 hand-built 6-variable cases: six rotations of the names x four gates x four targets)")
 RULE = "non-trivial = the reference has at least one succession with at least one step"
 CASE_TIMEOUT = 60.0
 
 
+def shared_child_cases(seed, tier):
+    """shape added after the round-5 seeded-change review (C07-m5): a node that is a child of the root AND of one of its siblings (the percolation of one stable
+    motif lies inside another motif), created before that sibling or after it depending on the names, and that reaches the region outside the target only through its
+    own children; a third module reading one of the two decides the target. Names are rotated so that the order in which clingo lists the motifs (hence the node
+    ids) varies."""
+    base = "{a}, {b}; {b}, {a}; {c}, {a} | {d}; {d}, {c}; {e}, {f} | {g}; {f}, {e} | {g}"
+    letters = ["A", "B", "C", "D", "E", "F"]
+    k = 0
+    for rot in (0, 2, 4, 1, 3, 5):
+        nm = dict(zip("abcdef", letters[rot:] + letters[:rot]))
+        for gate in ("!{a}", "{a}", "!{c}", "{c}"):
+            bnet = families.norm(base.replace("{g}", gate).format(**nm))
+            for target in ({nm["e"]: 1, nm["f"]: 1}, {nm["e"]: 0, nm["f"]: 0}, {nm["c"]: 1, nm["e"]: 1}, None):
+                rng = random.Random(f"{seed}-{k}-c07-shared")
+                k += 1
+                yield {"net": f"shared_child_r{rot}_{gate}", "bnet": bnet, "target": ["space", target] if target else ["mintrap", rng.randrange(6)],
+                       "strategy": rng.choice(["internal", "all"]), "max_drivers": rng.choice([None, None, 2]), "forbidden": []}
+
+
 def cases(seed, tier):
+    yield from families.interleave((shared_child_cases(seed, tier), 1), (general_cases(seed, tier), 3))
+
+
+def general_cases(seed, tier):
     for name, bnet in families.network_family(seed, tier, hand_max_vars=7):
         names = families.variables(bnet)
         for rnd in range(4 if tier == "quick" else 10):
